@@ -757,11 +757,19 @@ fn c06_jobs(tier: Tier) -> Vec<HybJob> {
     let bound = if tier == Tier::Quick { 2 } else { 3 };
     for cfg in cfgs {
         for core in cores.iter() {
-            for with_disk_copy in [false, true] {
+            // disk state: 0 = key absent, 1 = key on disk only, 2 = key on disk only and lookups throttled
+            for disk_state in [0u8, 1, 2] {
+                let with_disk_copy = disk_state > 0;
                 if with_disk_copy && cfg.noop_storage {
                     continue;
                 }
                 let mut prog = if with_disk_copy { seed.clone() } else { vec![] };
+                if disk_state == 2 {
+                    if core.len() > 2 {
+                        continue;
+                    }
+                    prog.push(HOp::ThrottleLoads);
+                }
                 prog.extend(core.iter().copied());
                 for (policy, faults, cancels) in [
                     (BasePolicy::ClientFirst, 0usize, 0usize),
@@ -873,7 +881,7 @@ pub fn props() -> Vec<HybProp> {
             jobs: c06_jobs,
             judge: c06_judge,
             rule: "Engine V, event level: programs of 2-3 overlapping callers of one absent key (get_or_fetch with a harness-held origin, lookup-only get), optionally with a concurrent insert/remove and with the key present on disk only; memory-only (NoopEngine) x algorithms and hybrid x both policies. The explorer owns: which task is polled, which disk read completes or FAILS (1 injected error), when each held origin resolves and whether with ok or error, cancellation of the fetch task, dropping a waiting caller. All schedules within the deviation bound of ClientFirst/Eager are explored. Oracle: origin executions of one key never overlap; every caller resolves (nothing hangs at quiescence); callers that waited through a fetch receive that fetch's entry / error; a lookup-only caller joined by a fetcher gets the entry; a failed fetch caches nothing.",
-            assumptions: vec!["disk-lookup throttling is not injected in this check (LoadThrottleSwitch is exercised by C12's history family only when built)"],
+            assumptions: vec!["disk-lookup throttling is injected through foyer's own test_utils LoadThrottleSwitch (a third disk state beside absent / on disk)"],
             level: "model_checking",
             need_tiers: vec![0],
             max_execs_per_job: 50_000,
